@@ -274,7 +274,12 @@ func (e *Engine) opaqueIface(c *ssa.CallCommon) bool {
 	return false
 }
 
-func (e *Engine) nilReceiverOK(f *ssa.Function) bool { return false }
+func (e *Engine) nilReceiverOK(f *ssa.Function) bool {
+	if sp := e.db.Funcs[funcKey(f)]; sp != nil && len(sp.ClausesOf("nilreceiver")) > 0 {
+		return true
+	}
+	return false
+}
 
 // ---------------------------------------------------------------------------------------------
 // verification of one function
@@ -288,6 +293,7 @@ type FuncResult struct {
 	Inlined     []string
 	Contracts   []string
 	Cover       *Obligation
+	Covers      []*Obligation
 	HasContract bool
 	NInstr      int
 }
@@ -350,6 +356,7 @@ func (e *Engine) VerifyFunc(key string) (res *FuncResult) {
 	}
 	st := &State{reach: TTrue, heaps: map[string]*Term{}, ghosts: map[string]*Term{}}
 	st.next = fc.sc.Fresh("next0", SInt)
+	fc.next0 = st.next
 	fc.sc.Assert(Gt(st.next, IntLit(100000)))
 	for _, s := range []Sort{SInt, SBool, SStr, SPtr, SSlice, SIface, SFlt} {
 		fc.leafHeap(st, s)
@@ -367,7 +374,7 @@ func (e *Engine) VerifyFunc(key string) (res *FuncResult) {
 		_ = i
 	}
 	if fn.Signature.Recv() != nil && len(params) > 0 {
-		if _, isPtr := fn.Signature.Recv().Type().Underlying().(*types.Pointer); isPtr {
+		if _, isPtr := fn.Signature.Recv().Type().Underlying().(*types.Pointer); isPtr && !e.nilReceiverOK(fn) {
 			fc.sc.Assert(Ne(PObj(params[0].T), IntLit(0)))
 			fc.note("method receivers are non-nil (asserted at every call site the engine sees)")
 		}
@@ -410,6 +417,7 @@ func (e *Engine) VerifyFunc(key string) (res *FuncResult) {
 	// vacuity: the exit must be reachable under the assumptions
 	cov := &Obligation{Name: fc.key + "/cover#exit", Kind: "cover", Func: fc.key, NFacts: len(fc.sc.facts), NegGoal: exit.reach.S, Script: fc.sc, Pos: e.fset.Position(fn.Pos()), Desc: "function exit reachable (assumptions not contradictory)"}
 	res.Cover = cov
+	res.Covers = append(fc.covers, cov)
 	return
 }
 
@@ -473,6 +481,7 @@ func (e *Engine) VerifyLemma(b *Block) *FuncResult {
 	}()
 	st := &State{reach: TTrue, heaps: map[string]*Term{}, ghosts: map[string]*Term{}}
 	st.next = fc.sc.Fresh("next0", SInt)
+	fc.next0 = st.next
 	for _, s := range []Sort{SInt, SBool, SStr, SPtr, SSlice, SIface, SFlt} {
 		fc.leafHeap(st, s)
 	}
